@@ -326,3 +326,11 @@ def rekey_and_recaps_always_draw(ctx):
     from . import c06, c18
     c06.flag_provenance(ctx)
     c18.wiring(ctx)
+
+
+@rule('C16', 'identifiers-have-a-random-marker')
+def identifiers_have_a_random_marker(ctx):
+    """'every ... identifier is fresh': an identifier has one random marker per tracer but the last, so the tracing level never
+    drops to the point where no marker is drawn (C17.tracing-level-floor)."""
+    from . import c17
+    c17.tracing_level_floor(ctx)
